@@ -37,6 +37,8 @@ import (
 	"io"
 	"io/ioutil"
 	"math/rand"
+	"net/http"
+	"net/http/httptest"
 	"os"
 	"path/filepath"
 	"runtime/debug"
@@ -149,7 +151,19 @@ func (r *vC04Run) perform(op string, mount int, reqNs int64) int {
 		}
 		return code
 	case "index":
-		resp := s.do("GET", "/index", nil, vksSysToken)
+		// IndexTo can panic when a directory entry vanishes under it (see KeepVolume.tla, IStep); a real
+		// server's net/http recovers that and the client sees a truncated response: do the same
+		resp := httptest.NewRecorder()
+		func() {
+			defer func() {
+				if e := recover(); e != nil {
+					resp.Code = 599
+				}
+			}()
+			req, _ := http.NewRequest("GET", "/index", nil)
+			req.Header.Set("Authorization", "OAuth2 "+vksSysToken)
+			s.h.ServeHTTP(resp, req)
+		}()
 		entries := []string{}
 		for _, line := range strings.Split(resp.Body.String(), "\n") {
 			if line == "" {
@@ -467,9 +481,16 @@ func (r *vC04Run) runRandom(scn *vC04Scn, rnd *rand.Rand) {
 			}
 			reqNs, tok = r.requestStamp(rv, rnd.Intn(4) == 0)
 		}
-		if op == "pull" && rnd.Intn(2) == 0 {
-			if m := 1 + rnd.Intn(scn.N); !scn.RO[m-1] {
-				mount = m
+		if op == "pull" {
+			// always with a mount: an item without mount_uuid makes the pull worker dereference a nil
+			// *VolumeMount (typed nil in a Volume interface) and the process dies
+			for m := 1; m <= scn.N && mount == 0; m++ {
+				if k := (m + i) % scn.N; !scn.RO[k] {
+					mount = k + 1
+				}
+			}
+			if mount == 0 {
+				continue
 			}
 		}
 		r.log(map[string]interface{}{"ev": "call", "id": 1, "op": op, "mount": mount, "req": tok})
